@@ -136,6 +136,39 @@ def run(ctx, chk):
                    key="G1b|%s" % nm,
                    msg="a compute call must not return Ok without having compared versions (a source whose version "
                        "changed but whose length did not would keep stale results)")
+    # G2b nothing is read from the column itself before the version was validated (a value read before the reset
+    # belongs to the old version)
+    reads_self = re.compile(r"vecdb::traits::readable::ReadableVec::(collect_one_at|collect_one|read_into_at|fold_range_at|"
+                            r"try_fold_range_at|for_each_range_dyn_at|collect_range_at|collect_range|collect|get|cursor|"
+                            r"read_sorted_into_at|min|max|sum)$")
+
+    def _reads_column(body, b, t):
+        if not t["args"] or op_place(t["args"][0]) is None:
+            return False
+        if 1 not in O.slice_back(body, t["args"][0])["params"]:
+            return False
+        nm = names(t)
+        if any(reads_self.match(n) for n in nm):
+            return True
+        kind, tg = P.resolve(t["callee"])
+        if kind == "ws":
+            return any(g not in VALIDATORS and not is_compute(g) and any(reads_self.match(x) for x in O.reach(g))
+                       for g in tg)
+        return False
+    rm = M(r".*", where=_reads_column, label="read of the column's own stored values")
+    for bid, body in sorted(comp.items()):
+        if bid.endswith("compute_init"):
+            continue
+        rs = O.sites(body, rm)
+        if not rs:
+            continue
+        bad = O.precedes(body, vm, rm)
+        nm = bid.split("::")[-1]
+        chk.oblige("G2b %s: own stored values are read only after the version validation [%d read site(s)]" % (nm, len(rs)),
+                   not bad, detail={"early_reads": [body.blocks[b]["term"].get("span") for b in bad]},
+                   key="G2b|%s" % nm,
+                   msg="a value read from the column before the version check may belong to results of another version "
+                       "and be mixed into the recomputed ones")
     chk.cov["compute_methods"] = len(comp) - 1
     chk.cov["source_parameters"] = n_src
     # G2 ordering inside compute_init
